@@ -1,12 +1,13 @@
 """C03: check configuration (PROPS_ENTRY, consumed by ./check and gen_manifest.py) and the list of lemmas that make up
 the property file (SPEC_ENTRY, consumed by tools/mkprops.py)."""
-PROPS_ENTRY = {'models': ['Model/Queue.v'],
+PROPS_ENTRY = {'models': ['Model/Queue.v', 'Model/QueueNoAlloc.v'],
  'design_ref': 'DESIGN.md 3 C03',
  'assumptions': ['caller contract of pop_used: the buffers passed are those submitted for the token (keys match)',
-                 'heap faults: only the allocation of the indirect table in add is refused (kinds 111 / 169); other heap allocations of the crate are not fault-injected']}
+                 'heap faults: only the allocation of the indirect table in add is refused (kinds 111 / 149); other heap allocations of the crate are not fault-injected',
+                 'alloc-less build configuration (--no-default-features): second harness variant, directed histories around the capacity test (chains of 1..SIZE and SIZE+1.. buffers, exactly-full queues in several partitions, recycling in every order, index wrap through the pre-set hook of corpus/proposals/noalloc_hook.diff when the checkout has it, else only in the thorough soak), replayed through Model/QueueNoAlloc.v; monitor 151; theorems C03_noalloc_*']}
 
 SPEC_ENTRY = {'title': 'Completions are consumed exactly once in any order; descriptor counts stay exact',
- 'imports': ['Model.Queue', 'Proofs.QueueInv', 'Proofs.QueueReach', 'Proofs.QueueProps'],
+ 'imports': ['Model.Queue', 'Proofs.QueueInv', 'Proofs.QueueReach', 'Proofs.QueueProps', 'Model.QueueNoAlloc', 'Proofs.QueueNoAllocProofs'],
  'theorems': [('C03_pop_refines',
                'Proofs/QueueProps.v',
                'pop_refines',
@@ -28,8 +29,19 @@ SPEC_ENTRY = {'title': 'Completions are consumed exactly once in any order; desc
                'add_alloc_failure',
                'a fault at a particular point: when the heap refuses the indirect table of a submission, the call is a panic out of a queue that is '
                'exactly as it was (no share, no store, no private change), for ANY state; the table is wanted exactly on the indirect path (indirect queue, '
-               'more than one buffer, capacity test passed); otherwise add_af is add. Monitor 169 evaluates this on the implementation (heap fault '
-               'injection in the harness allocator) and additionally requires, should the driver cope with the refusal, that no outstanding chain is touched')],
+               'more than one buffer, capacity test passed); otherwise add_af is add. Monitor 149 evaluates this on the implementation (heap fault '
+               'injection in the harness allocator) and additionally requires, should the driver cope with the refusal, that no outstanding chain is touched'),
+              # ---- the alloc-less build configuration of the crate (--no-default-features) ----
+              ('C03_noalloc_refusal', 'Proofs/QueueNoAllocProofs.v', 'na_add_refusals', 'alloc-less build: InvalidParam iff nothing is offered; QueueFull iff num_used + needed > SIZE (the clause as written in that build); both without any effect; otherwise accepted, every buffer shared exactly once'),
+              ('C03_noalloc_refusal_monitor', 'Proofs/QueueNoAllocProofs.v', 'na_refusal_spec_holds', 'the boolean form evaluated by monitor 151 on the implementation (held descriptors = one per outstanding buffer) is true of every reachable model state'),
+              ('C03_noalloc_counts', 'Proofs/QueueNoAllocProofs.v', 'na_counts_exact', 'alloc-less build: num_used and available_desc are exact; a chain holds one descriptor per buffer whatever was requested at new'),
+              ('C03_noalloc_pop_refines', 'Proofs/QueueNoAllocProofs.v', 'na_pop_refines', 'C03_pop_refines for the alloc-less pop_used, every used-ring content'),
+              ('C03_noalloc_available_desc_eq', 'Proofs/QueueNoAllocProofs.v', 'na_available_desc_eq', None),
+              ('C03_noalloc_invariant', 'Proofs/QueueNoAllocProofs.v', 'na_invariant', 'the queue invariant holds in every state the alloc-less build reaches')],
  'examples': ['Example C03_wrap_nonvacuous : exists s1 evs, add (qset_indices (qnew 4 false true) 65535) [mkBuf 1 8 100] [] 0 = (Ok 0, s1, evs)\n'
               '  /\\ q_avail_idx s1 = 0 /\\ nthN (q_aring s1) 3 7 = 0.\n'
-              'Proof. eexists; eexists; vm_compute; repeat split; reflexivity. Qed.']}
+              'Proof. eexists; eexists; vm_compute; repeat split; reflexivity. Qed.',
+              'Example C03_noalloc_full_nonvacuous : exists s1 e1 s2 e2, na_add (qset_indices (na_new 2 true true) 65535) [mkBuf 1 8 100] [] = (Ok 0, s1, e1)\n'
+              '  /\\ na_add s1 [] [mkBuf 2 8 200] = (Ok 1, s2, e2) /\\ na_available_desc s2 = 0 /\\ q_avail_idx s2 = 1\n'
+              '  /\\ na_add s2 [mkBuf 3 8 300] [] = (Err EQueueFull, s2, []).\n'
+              'Proof. do 4 eexists; vm_compute; repeat split; reflexivity. Qed.']}
